@@ -1145,3 +1145,39 @@ Theorem handed_observation_agreeing_with_the_model_is_within_the_limit : forall 
   hand_mismatch c = false -> hand_spec_ok c = true.
 Proof. exact hand_agreement_implies_spec. Qed.
 Print Assumptions handed_observation_agreeing_with_the_model_is_within_the_limit.
+
+(* ---- round 8: the mutex of an insert service is not re-entered (model/IngestConn.v section 5) ---- *)
+
+(* the obligation evaluated over the REGENERATED table (gen_mtx_methods: what every method of the three service types calls while
+   its receiver's mutex is held): inside a locked region no method writes R.mtx.Lock() again, and every method it calls on the same
+   object is free of Lock() -- itself and, through calls on the same receiver, transitively (may_lock).  sync.Mutex is not
+   re-entrant: such a call blocks its goroutine for ever, holding the mutex.  Independent of the configuration: the seeded
+   Request -> PlanFlush call (C05-h) sits in a branch that only BULK_MAX_SIZE_BYTES > 0 makes live *)
+Theorem service_mutex_is_not_re_entered : forall tbl, lock_order_ok tbl = true -> forall x, In x tbl ->
+  mm_relock x = false /\ forall c, In c (mm_held_self x) -> may_lock (lock_fuel tbl) tbl (mm_type x) [] c = false.
+Proof. exact lock_order_ok_sound. Qed.
+Print Assumptions service_mutex_is_not_re_entered.
+
+(* ... spelled out for the two shortest chains: the callee does not lock, nor does anything it calls on the same receiver *)
+Theorem no_method_called_under_the_mutex_locks_it : forall tbl, lock_order_ok tbl = true -> forall x c y, In x tbl -> In c (mm_held_self x) ->
+  find_mm tbl (mm_type x) c = Some y ->
+  mm_relock x = false /\ mm_locks y = false /\
+  forall d z, In d (mm_self_calls y) -> d <> c -> find_mm tbl (mm_type x) d = Some z -> mm_locks z = false.
+Proof. exact no_re_entry. Qed.
+Print Assumptions no_method_called_under_the_mutex_locks_it.
+
+(* the seeded shape (C05-h) inside the model: Request calls PlanFlush in its locked region -> refused, with the offender named *)
+Theorem request_calling_planflush_under_the_mutex_refuted :
+  lock_order_ok mtx_seeded_h = false /\
+  lock_order_offenders mtx_seeded_h = [("InsertServiceV2", "Request", false, ["PlanFlush"])]%string.
+Proof. exact seeded_h_re_enters_the_mutex. Qed.
+Print Assumptions request_calling_planflush_under_the_mutex_refuted.
+
+(* the regenerated table of /repo satisfies it; the locked regions the slice relies on exist; every other callee met under a service
+   mutex is on the allow-lists (by reading they cannot reach the service); Lock / Unlock appear only as statements / deferred Unlock;
+   the bulk size of every insert service comes from SYSTEM_SETTINGS.DBBulk *)
+Theorem service_lock_order_in_source :
+  lock_order_ok gen_mtx_methods = true /\ lockers_present gen_mtx_methods = true /\ held_calls_known gen_mtx_methods = true /\
+  gen_mtx_odd_uses = [] /\ gen_bulk_size_sources = ["int64(config.SYSTEM_SETTINGS.DBBulk)"]%string.
+Proof. vm_compute. repeat split; reflexivity. Qed.
+Print Assumptions service_lock_order_in_source.
